@@ -3,7 +3,7 @@
    codes, feature bits, layouts, header constructor and validators are the
    regenerated definitions; control flow is by hand and tied to the code by
    the correspondence family "fe". *)
-From VV Require Import Base.Bits Base.Rt Base.Val Gen.GenConsts Gen.GenLayout Gen.GenFns Model.Transport.
+From VV Require Import Base.Bits Base.Rt Base.Val Gen.GenConsts Gen.GenLayout Gen.GenFns Gen.GenVrfd Model.Transport.
 Open Scope string_scope.
 Open Scope list_scope.
 Open Scope N_scope.
@@ -262,8 +262,9 @@ Definition fe_op (s : fe_state) (name : string) (a : list N) (bytes : list N) (f
   else if String.eqb name "set_vring_call" || String.eqb name "set_vring_kick" || String.eqb name "set_vring_err" then
     let code := if String.eqb name "set_vring_call" then FrontendReq_SET_VRING_CALL
                 else if String.eqb name "set_vring_kick" then FrontendReq_SET_VRING_KICK else FrontendReq_SET_VRING_ERR in
-    if qidx_bad || (255 <? arg 0%nat) then local_err s EInvalidParam
-    else simple_ack s code (u64b (arg 0%nat)) fds q
+    (* the local refusal and the payload value are REGENERATED from send_fd_for_vring (Gen.GenVrfd) *)
+    if sfv_bad (arg 0%nat) (fe_maxq s) then local_err s EInvalidParam
+    else simple_ack s code (u64b (sfv_payload (arg 0%nat))) fds q
   else if String.eqb name "get_protocol_features" then
     if negb (hasf (fe_vf s) VhostUserVirtioFeatures_PROTOCOL_FEATURES) then local_err s (EInactiveFeature 0)
     else get_u64 s FrontendReq_GET_PROTOCOL_FEATURES q
